@@ -822,7 +822,7 @@ func (p *CPU) execInst(bus *device.Bus, as abi.As, arg *abi.AsRawArgument) error
 		default:
 			return fmt.Errorf("unsupport: %s", loong64.AsString(as, ""))
 		case loong64.APCADDU12I:
-			p.RegX[arg.Rd] = curPC + LAUInt(arg.Imm)
+			p.RegX[arg.Rd] = curPC + LAUInt(int64(arg.Imm<<12))
 			return nil
 		case loong64.ALU12I_W:
 			p.RegX[arg.Rd] = LAUInt(arg.Imm << 12)
